@@ -174,6 +174,13 @@ def qrw(R, prog):
                    require=lambda st, ev, tf=tf: ('G:%s()=F' % tf) in st,
                    key_fn=lambda ev, inst=inst: '%s.K6:photon::qrwlock::%s:failure-after-failed-try' % (P, inst),
                    describe=lambda ev: 'failing return: the last try_fn() had failed (nothing acquired)', min_sites=1, what='return -1')
+    for f in fs:
+        G = K.build_f(R, prog, f)
+        for nid, idx, ev in G.events():
+            if ev.kind == 'return' and ev.depth == 0 and ev.f.const(ev.e['sub']) is None:
+                R.violated(P + '.K6', '%s.K6:photon::qrwlock::do_lock#%d:result-decided-by-try' % (P, fs.index(f)), f.id, ev.loc(),
+                           'do_lock returns %s: the result is not decided by the outcome of the last try_fn() (a wait result can be 0 without the lock, '
+                           'or -1 after a try that acquired it)' % ev.show(ev.e['sub'])[:60])
     # lock(): the try functions and condvars are paired
     f = prog.find('photon::qrwlock::lock')
     pairs = []
